@@ -145,7 +145,7 @@ func modeFor(prop string) (*histMode, error) {
 			}}, nil
 	case "C08":
 		return &histMode{optOutSome: true, flavors: append(append([]string{}, all...), "tree", "treex"),
-			gen: hist.GenConfig{MinClients: 1, MaxClients: 3, MinSteps: 6, MaxSteps: 30, FailUpd: true, Undo: true},
+			gen: hist.GenConfig{MinClients: 1, MaxClients: 3, MinSteps: 6, MaxSteps: 30, FailUpd: true, Undo: true, Presence: true},
 			oracle: func(h *hist.History, o *hist.Outcome) []hist.Problem {
 				var ps []hist.Problem
 				for _, p := range o.Problems {
